@@ -56,6 +56,7 @@ type deriveCfg struct {
 	shards    uint
 	cached    bool
 	twoTagMap bool
+	fixedRoot bool // concrete empty prefix and default separator
 }
 
 // strChoice: a symbolic string of 0..max bytes; max < 0 means exactly -max bytes.
@@ -112,16 +113,25 @@ func derive(tag string, root *scope, ref refScope, sep string, cfg deriveCfg, ca
 }
 
 func c04Run(cfg deriveCfg) {
-	prefix := strChoice("prefix", cfg.maxStr)
+	prefix := ""
+	if !cfg.fixedRoot {
+		prefix = strChoice("prefix", cfg.maxStr)
+	}
 	sepIn := ""
-	if verifrt.Choose("sep.custom", 2) == 1 {
+	if !cfg.fixedRoot && verifrt.Choose("sep.custom", 2) == 1 {
 		sepIn = strChoice("sep", -1)
 		if !cfg.sanitize {
 			sepIn = verifrt.String("sep", 1)
 		}
 	}
-	rk, rv := strChoice("root.tk", cfg.maxStr), strChoice("root.tv", cfg.maxStr)
-	rootTags := map[string]string{rk: rv}
+	// the root has no tag or one tag
+	var rk, rv string
+	rootTags := map[string]string{}
+	hasRootTag := verifrt.Choose("root.tagged", 2) == 1
+	if hasRootTag {
+		rk, rv = strChoice("root.tk", cfg.maxStr), strChoice("root.tv", cfg.maxStr)
+		rootTags[rk] = rv
+	}
 	rec := &vReporter{}
 	opts := ScopeOptions{Prefix: prefix, Tags: rootTags, Reporter: rec, Separator: sepIn,
 		OmitCardinalityMetrics: true, registryShardCount: cfg.shards}
@@ -141,11 +151,16 @@ func c04Run(cfg deriveCfg) {
 		sep = DefaultSeparator
 	}
 	sep = z.Name(sep)
-	ref := refScope{prefix: z.Name(prefix), tags: []kv{{z.Key(rk), z.Value(rv)}}}
+	ref := refScope{prefix: z.Name(prefix)}
 	var maps []map[string]string
 	var copies [][]kv
 	maps = append(maps, rootTags)
-	copies = append(copies, []kv{{rk, rv}})
+	if hasRootTag {
+		ref.tags = []kv{{z.Key(rk), z.Value(rv)}}
+		copies = append(copies, []kv{{rk, rv}})
+	} else {
+		copies = append(copies, nil)
+	}
 	s, ref := derive("p", root, ref, sep, cfg, &maps, &copies)
 	delim := verifrt.Or(hasDelim(prefix), verifrt.Or(hasDelim(sep), hasDelim(ref.prefix)))
 	for _, e := range ref.tags {
@@ -204,5 +219,6 @@ func VerifC04Plain()     { c04Run(deriveCfg{depth: 2, maxStr: 1, shards: 1}) }
 func VerifC04Sanitized() { c04Run(deriveCfg{depth: 1, maxStr: -1, shards: 1, sanitize: true}) }
 func VerifC04Sanitized2() { c04Run(deriveCfg{depth: 2, maxStr: -1, shards: 1, sanitize: true}) }
 func VerifC04Shards2()   { c04Run(deriveCfg{depth: 2, maxStr: 1, shards: 2}) }
+func VerifC04TwoTags()   { c04Run(deriveCfg{depth: 2, maxStr: -1, shards: 1, twoTagMap: true, fixedRoot: true}) }
 func VerifC04Deep()      { c04Run(deriveCfg{depth: 3, maxStr: 1, shards: 1, twoTagMap: true}) }
 func VerifC04Long()      { c04Run(deriveCfg{depth: 2, maxStr: 2, shards: 1}) }
